@@ -8,7 +8,7 @@ open Obs
 /-- A builder event other than `create`, and `append`. -/
 theorem sim_builder (s : Sys) (e : Ev) (s' : Sys) (o : OSt) (hR : Rel s o) (h : step s e = some s')
     (hne : e ≠ .create) (hnf : e ≠ .fol) :
-    (obsEv s e = [] ∧ Rel s' o) ∨ (∃ x o', obsEv s e = [x] ∧ ostep o x = .ok o' ∧ Rel s' o') := by
+    ∃ o', osteps o (obsEv s e) = .ok o' ∧ Rel s' o' := by
   obtain ⟨hph, hcur, hfn, hfs⟩ := hR
   cases e with
   | create => exact absurd rfl hne
@@ -17,7 +17,7 @@ theorem sim_builder (s : Sys) (e : Ev) (s' : Sys) (o : OSt) (hR : Rel s o) (h : 
     simp only [step] at h; split at h
     · next hidle =>
       cases h
-      refine .inr ⟨.lock, { o with phase := .lockedNoLog }, rfl, by simp [ostep, hph, hidle], ?_⟩
+      refine ⟨{ o with phase := .lockedNoLog }, by simp [obsEv, osteps, ostep, hph, hidle], ?_⟩
       exact ⟨rfl, (fun hb => by cases hb), hfn, hfs⟩
     · cases h
   | unlock =>
@@ -25,13 +25,13 @@ theorem sim_builder (s : Sys) (e : Ev) (s' : Sys) (o : OSt) (hR : Rel s o) (h : 
     · cases h
     · next hidle =>
       cases h
-      refine .inr ⟨.unlock, { o with phase := .idle }, rfl, by simp [ostep, hph, hidle], ?_⟩
+      refine ⟨{ o with phase := .idle }, by simp [obsEv, osteps, ostep, hph, hidle], ?_⟩
       exact ⟨rfl, (fun hb => by cases hb), hfn, hfs⟩
   | append l =>
     simp only [step] at h; split at h
     · next hb =>
       cases h
-      refine .inl ⟨rfl, hph, ?_, hfn, hfs⟩
+      refine ⟨o, rfl, hph, ?_, hfn, hfs⟩
       intro h1 h2
       have hne : s.insts ≠ [] := fun h0 => h2 (by simp [h0, appendLast])
       simpa [appendLast_length] using hcur h1 hne
@@ -39,7 +39,7 @@ theorem sim_builder (s : Sys) (e : Ev) (s' : Sys) (o : OSt) (hR : Rel s o) (h : 
 
 /-- A follower step. -/
 theorem sim_fol (s s' : Sys) (o : OSt) (hR : Rel s o) (hI : ObsInv s) (h : step s .fol = some s') :
-    (obsEv s .fol = [] ∧ Rel s' o) ∨ (∃ x o', obsEv s .fol = [x] ∧ ostep o x = .ok o' ∧ Rel s' o') := by
+    ∃ o', osteps o (obsEv s .fol) = .ok o' ∧ Rel s' o' := by
   obtain ⟨hph, hcur, hfn, hfs⟩ := hR
   simp only [step] at h
   split at h
@@ -47,8 +47,8 @@ theorem sim_fol (s s' : Sys) (o : OSt) (hR : Rel s o) (hI : ObsInv s) (h : step 
     -- start: `enter`
     cases h
     have hfol := hfn (.inl hpc)
-    refine .inr ⟨.enter (locked s), { o with fol := some { wasLocked := locked s } }, by simp [obsEv, obsFol, hpc], ?_, ?_⟩
-    · simp [ostep, hfol, locked, hph]
+    refine ⟨{ o with fol := some { wasLocked := locked s } }, ?_, ?_⟩
+    · simp [obsEv, obsFol, hpc, osteps, ostep, hfol, locked, hph]
     · refine ⟨hph, hcur, fun hc => by simp at hc, fun _ _ => ⟨_, rfl, ?_, rfl⟩⟩
       exact (hI.2 hpc).symm
   · next hpc =>
@@ -56,22 +56,23 @@ theorem sim_fol (s s' : Sys) (o : OSt) (hR : Rel s o) (hI : ObsInv s) (h : step 
     split at h
     · next g hop =>
       cases h
-      refine .inl ⟨by simp [obsEv, obsFol, hpc, hop], hph, hcur, fun hc => by simp at hc, fun _ _ => ⟨f, hf, hfo, hfw⟩⟩
+      refine ⟨o, by simp [obsEv, obsFol, hpc, hop, osteps], hph, hcur, fun hc => by simp at hc, fun _ _ => ⟨f, hf, hfo, hfw⟩⟩
     · next hop =>
       split at h
       · next hemp =>
         cases h
-        refine .inl ⟨by simp [obsEv, obsFol, hpc, hop, hemp], hph, hcur, fun hc => by simp at hc,
+        refine ⟨o, by simp [obsEv, obsFol, hpc, hop, hemp, osteps], hph, hcur, fun hc => by simp at hc,
           fun _ _ => ⟨f, hf, hfo, hfw⟩⟩
       · next hemp =>
         cases h
         have hne : s.insts ≠ [] := by intro h0; simp [h0] at hemp
-        refine .inr ⟨.opened (s.insts.length - 1),
-          { o with fol := some { f with opened := some (s.insts.length - 1),
-                                        openedUnderLock := s.phase = .lockedNoLog } },
-          by simp [obsEv, obsFol, hpc, hop, hemp], ?_, ?_⟩
+        refine ⟨{ o with
+          fol := some { f with opened := some (s.insts.length - 1), openedUnderLock := s.phase = .lockedNoLog } },
+          ?_, ?_⟩
         · have hfo' : f.opened = none := hfo.trans hop
-          simp only [ostep, hf, hfo', Option.isSome_none, Bool.false_eq_true, if_false, hph]
+          have hev : obsEv s .fol = [.opened (s.insts.length - 1)] := by simp [obsEv, obsFol, hpc, hop, hemp]
+          rw [hev]
+          simp only [osteps, ostep, hf, hfo', Option.isSome_none, Bool.false_eq_true, if_false, hph]
           rw [if_neg]
           rintro ⟨hb, hc⟩
           exact hc (hcur hb hne)
@@ -82,27 +83,27 @@ theorem sim_fol (s s' : Sys) (o : OSt) (hR : Rel s o) (hI : ObsInv s) (h : step 
     · next l hl =>
       cases h
       have hnl : nextLine s = some l := hl
-      refine .inl ⟨by simp [obsEv, obsFol, hpc, hnl], hph, hcur, fun hc => by simp at hc, fun _ _ => ⟨f, hf, hfo, hfw⟩⟩
+      refine ⟨o, by simp [obsEv, obsFol, hpc, hnl, osteps], hph, hcur, fun hc => by simp at hc, fun _ _ => ⟨f, hf, hfo, hfw⟩⟩
     · next hl =>
       have hnl : nextLine s = none := hl
       split at h
       · next hw =>
         cases h
-        refine .inl ⟨by simp [obsEv, obsFol, hpc, hnl, hw], hph, hcur, fun hc => by simp at hc,
-          fun _ _ => ⟨f, hf, hfo, hfw⟩⟩
+        refine ⟨{ o with fol := some { f with eofSince := true } },
+          by simp [obsEv, obsFol, hpc, hnl, hw, osteps, ostep, hf], hph, hcur, fun hc => by simp at hc,
+          fun _ _ => ⟨_, rfl, hfo, hfw⟩⟩
       · next hw =>
         cases h
         have hw' : s.wasLocked = false := by simpa using hw
-        refine .inr ⟨.stop, { o with fol := none }, by simp [obsEv, obsFol, hpc, hnl, hw'], ?_, ?_⟩
-        · simp [ostep, hf, hfw, hw']
+        refine ⟨{ o with fol := none }, ?_, ?_⟩
+        · simp [obsEv, obsFol, hpc, hnl, hw', osteps, ostep, hf, hfw]
         · exact ⟨hph, hcur, fun _ => rfl, fun _ hc => absurd rfl hc⟩
   · next hpc =>
     -- check
     obtain ⟨f, hf, hfo, hfw⟩ := hfs (by simp [hpc]) (by simp [hpc])
     cases h
-    refine .inr ⟨.check (locked s), { o with fol := some { f with wasLocked := locked s } },
-      by simp [obsEv, obsFol, hpc], ?_, ?_⟩
-    · simp [ostep, hf, locked, hph]
+    refine ⟨{ o with fol := some { f with wasLocked := locked s, eofSince := false } }, ?_, ?_⟩
+    · simp [obsEv, obsFol, hpc, osteps, ostep, hf, locked, hph]
     · exact ⟨hph, hcur, fun hc => by simp at hc, fun _ _ => ⟨_, rfl, hfo, rfl⟩⟩
   · cases h
 
